@@ -12,6 +12,9 @@ package main
 
 import (
 	"fmt"
+	"go/types"
+	"regexp"
+	"strconv"
 	"strings"
 )
 
@@ -90,7 +93,7 @@ func ruleR32(c *Ctx) *RuleResult {
 					for _, e2 := range g.Effects[i+1:] {
 						if isStore(e2) && e2.Args[0].Op == "fa" && e2.Args[1].Op == "slice" && noEpoch(e2.Args[1].Args[0]) == X && e2.Args[1].Args[1].Op == "_" {
 							hi := linOf(e2.Args[1].Args[2])
-							want := linAtom("(len " + X + ")").add(linConst(1), -1)
+							want := linAtom("(len "+X+")").add(linConst(1), -1)
 							if hi.String() == want.String() {
 								trunced = true
 							}
@@ -326,6 +329,22 @@ func ruleR36(c *Ctx) *RuleResult {
 				if !removed {
 					bad = append(bad, "the entry that moved up is not the one removed from the leaf")
 				}
+				// the key handed to rebalance locates the leaf among its parent's children: rebalance finds the siblings by
+				// search(node.Parent, key). The predecessor's key, now the separator, resolves to the child on its left — the
+				// leaf; the successor's key resolves to that same child, one short of the leaf when the leaf hangs directly
+				// under the node.
+				if succ && k == "#:0" {
+					for _, e2 := range g.Effects {
+						nm, args, ok := effDo(e2)
+						if !ok || nm != "rebalance" || len(args) != 3 || noEpoch(args[1]) != ns {
+							continue
+						}
+						moved := "(load (fa:Key (load (ia (load (fa:Entries " + ns + ")) #:0))))"
+						if noEpoch(args[2]) == moved && callEpoch(args[2].Args[0].Args[0]) == callEpoch(v) && siblingsBySearch(c, ct) {
+							bad = append(bad, "the key handed to rebalance is the successor's, which now is the separator on the leaf's left: leftSibling/rightSibling look the leaf up by search(node.Parent, key) and find the child on the other side of that separator")
+						}
+					}
+				}
 			}
 		}
 		if n == 0 {
@@ -421,7 +440,7 @@ func ruleR37(c *Ctx) *RuleResult {
 		if sib != nil {
 			sibEntries = "(load (fa:Entries " + noEpoch(sib) + "))"
 			if side == "left" {
-				wantEnd = linAtom("(len " + sibEntries + ")").add(linConst(1), -1).String()
+				wantEnd = linAtom("(len "+sibEntries+")").add(linConst(1), -1).String()
 			} else {
 				wantEnd = "0"
 			}
@@ -466,4 +485,53 @@ func ruleR37(c *Ctx) *RuleResult {
 		r.ok(key, clause, p.FuncPos(fn), fmt.Sprintf("%d sibling paths: separator and end-entry indices consistent", narms))
 	}
 	return r
+}
+
+var callEpochRe = regexp.MustCompile(`^c(\d+)\.`)
+
+// callEpoch: how many calls precede the load on its path ("c<n>." of the load's stamp); -1 when the term is no load.
+func callEpoch(t *Term) int {
+	if t.Op != "load" {
+		return -1
+	}
+	if m := callEpochRe.FindStringSubmatch(t.Leaf); m != nil {
+		n, _ := strconv.Atoi(m[1])
+		return n
+	}
+	return -1
+}
+
+// siblingsBySearch: the B-tree's leftSibling and rightSibling locate the node among its parent's children by searching the
+// parent for the key they are handed.
+func siblingsBySearch(c *Ctx, ct *types.Named) bool {
+	ms := methodsOf(c.p, ct)
+	for _, name := range []string{"leftSibling", "rightSibling"} {
+		fn := ms[name]
+		if fn == nil {
+			return false
+		}
+		gc := c.GC(fn)
+		if gc.Undecided != "" {
+			return false
+		}
+		found := false
+		for _, g := range gc.GCs {
+			check := func(t *Term) bool {
+				return t.any(func(x *Term) bool {
+					return x.Op == "call" && strings.HasSuffix(x.Leaf, ").search") && len(x.Args) == 4 && noEpoch(x.Args[2]) == "(load (fa:Parent p:1))" && noEpoch(x.Args[3]) == "p:2"
+				})
+			}
+			for _, a := range g.Guards {
+				found = found || check(a)
+			}
+			for _, a := range g.Effects {
+				found = found || check(a)
+			}
+			found = found || check(g.Exit)
+		}
+		if !found {
+			return false
+		}
+	}
+	return true
 }
